@@ -82,7 +82,7 @@ def gen_vocab_isa(rnd):
     macros = [m for m in rnd.sample(MACRO_POOL, n_m) if m.lower() not in lower]
     general = {'address_size': 16, 'endian': 'big', 'registers': regs, 'min_version': '0.3.0'}
     if rnd.random() < 0.7:
-        general['identifier'] = {'name': rnd.choice(['tiny', 'sim-isa', 'my_cpu', 'z 80']),
+        general['identifier'] = {'name': rnd.choice(['tiny', 'sim-isa', 'my_cpu', 'z 80', '.dot8', 'q"t', 'b\\s', "o'k"]),
                                  'version': rnd.choice(['1.0.0', '0.2.11']),
                                  'extension': rnd.choice(['asm', 's', 'tasm'])}
     if nreg == 0 and rnd.random() < 0.5:
@@ -92,9 +92,20 @@ def gen_vocab_isa(rnd):
         opsets['regs'] = {'operand_values': {f'r_{r}': {'type': 'register', 'register': r,
                                                         'bytecode': {'value': i % 8, 'size': 3}}
                                              for i, r in enumerate(regs)}}
+    enum_keys = []
+    if rnd.random() < 0.4:
+        enum_keys = rnd.sample(['cs', 'nz', 'eq', 'pl', 'mi_x'], rnd.randrange(2, 4))
+        enum_keys = [k for k in enum_keys if k not in regs]
+        opsets['flags'] = {'operand_values': {'flag': {'type': 'enumeration', 'bytecode': {
+            'size': 3, 'value_dict': {k: j for j, k in enumerate(enum_keys)}}, 'argument': {
+            'size': 8, 'byte_align': True, 'value_dict': {k: j for j, k in enumerate(enum_keys)}}}}}
     instructions = {}
     for i, m in enumerate(mn):
         cfg = {'bytecode': {'value': i, 'size': 8}}
+        if enum_keys and i == len(mn) - 1:
+            instructions[m] = {'bytecode': {'value': i % 32, 'size': 5},
+                               'operands': {'count': 1, 'operand_sets': {'list': ['flags']}}}
+            continue
         c = rnd.randrange(3)
         if c == 1:
             cfg['operands'] = {'count': 1, 'operand_sets': {'list': ['imm']}}
@@ -105,8 +116,9 @@ def gen_vocab_isa(rnd):
     isa = {'description': rnd.choice(DESCRIPTIONS), 'general': general, 'operand_sets': opsets, 'instructions': instructions}
     if macros:
         first = mn[0]
-        body = [first] if 'operands' not in instructions[first] else [
-            f'{first} 1' if instructions[first]['operands']['operand_sets']['list'] == ['imm'] else f'{first} {regs[0]}']
+        kind = instructions[first].get('operands', {}).get('operand_sets', {}).get('list', [None])[0]
+        body = [first if kind is None else (f'{first} 1' if kind == 'imm' else (
+            f'{first} {enum_keys[0]}' if kind == 'flags' else f'{first} {regs[0]}'))]
         isa['macros'] = {m: [{'operands': {'count': 0}, 'instructions': body + body}] for m in macros}
     pre = {}
     if rnd.random() < 0.5:
@@ -132,9 +144,15 @@ def effective_isa(case):
 
 
 def vocab_of(isa):
+    outsiders = []
+    for os_ in isa.get('operand_sets', {}).values():
+        for op in os_.get('operand_values', {}).values():
+            if op.get('type') == 'enumeration':
+                outsiders += list(op.get('bytecode', {}).get('value_dict', {}))
     return {'instructions': [m.lower() for m in isa['instructions']],
             'macros': [m.lower() for m in isa.get('macros', {})],
-            'registers': list(isa['general'].get('registers') or [])}
+            'registers': list(isa['general'].get('registers') or []),
+            'outsiders': outsiders}
 
 
 def build_world(case):
@@ -320,7 +338,7 @@ def check_grammar(rules, vocab, target):
     """returns list of violation classes"""
     v = []
     detail = []
-    allwords = set(w.lower() for ws in vocab.values() for w in ws)
+    allwords = set(w.lower() for k, ws in vocab.items() if k != 'outsiders' for w in ws)
     allwords |= set(COMPILER_DIRECTIVES + BYTECODE_DIRECTIVES + PREPROCESSOR_DIRECTIVES)
 
     def expect(word, scope, cls):
@@ -365,6 +383,15 @@ def check_grammar(rules, vocab, target):
         if res is None or res[0] != PRE_SCOPE or res[1] != d:
             v.append('CL-preprocessor-directive-not-classified-in-full')
             detail.append(('#' + d, res, 'preprocessor'))
+    for w in vocab.get('outsiders', []):
+        if w.lower() in allwords:
+            continue
+        res = classify(rules, w)
+        op = classify_operand(rules, carriers[0], w) if carriers else None
+        for got in (res, op):
+            if got is not None and got[0] in VOCAB_SCOPES:
+                v.append(f'CL-outsider-classified-as-{got[0].split(".")[-1]}')
+                detail.append((w, got, 'outsider'))
     for cls, words in (('instruction', vocab['instructions']), ('macro', vocab['macros']),
                        ('register', vocab['registers']),
                        ('directive', ['.' + d for d in COMPILER_DIRECTIVES + BYTECODE_DIRECTIVES])):
@@ -703,7 +730,7 @@ def simplify(case):
 
 def gen_sched(rnd):
     return {'set_seed': rnd.randrange(1, 1 << 30), 'list_seed': rnd.randrange(1, 1 << 30),
-            'tmp_names': [rnd.choice(['a1b2', 'zz_9', 'Q', '0000'])],
+            'tmp_names': [rnd.choice(['a1b2', 'zz_9', 'Q', '0000', 'b[1]', 'x*y', 'q?'])],
             'epoch': rnd.choice([1.7e9, 3.2e8, 9.5e8, 2.0e9, 4.0e9]),
             'resource_mtime': rnd.choice([None, 0.0, 86400.0, 3.0e8, 1.7e9, 4.2e9]),
             'encoding': rnd.choice(['utf-8', 'utf-8', 'ascii', 'latin-1', 'cp1252'])}
@@ -742,6 +769,8 @@ def explore(subseed, cfg):
         base['opts'] += ['-x', rnd.choice(['asm', 's', 'a51'])]
     if rnd.random() < 0.15:
         base['opts'] += ['-k', rnd.choice(['9.9.9', '0.0.1-rc1'])]
+    if rnd.random() < 0.15:
+        base['opts'] += ['-l', rnd.choice(['.hidden', 'plain', 'x"y', 'back\\slash', 'sp ace'])]
     vd = H(json.dumps(isa, sort_keys=True)) & 0xFFFFFFFF
     if any('.' in m for m in vocab['instructions'] + vocab['macros']):
         pr['mnemonic_with_dot'] = 1
